@@ -19,6 +19,7 @@ ABORT_DATA_PHASE = 10002
 CMD_FLASH_ERASE_ALL, CMD_FLASH_ERASE_REGION, CMD_READ_MEMORY, CMD_WRITE_MEMORY, CMD_FILL_MEMORY = 1, 2, 3, 4, 5
 CMD_GET_PROPERTY, CMD_RECEIVE_SB, CMD_EXECUTE, CMD_CALL, CMD_RESET, CMD_SET_PROPERTY = 7, 8, 9, 10, 11, 12
 CMD_PROGRAM_ONCE, CMD_READ_ONCE = 0x0E, 0x0F
+CMD_KEY_PROV, RSP_KEY_PROV = 0x15, 0xB5
 RSP_GENERIC, RSP_READ_MEMORY, RSP_GET_PROPERTY, RSP_READ_ONCE = 0xA0, 0xA3, 0xA7, 0xAF
 
 MEM_SIZE = 0x2000  # 8 KiB of model memory at address 0
@@ -52,6 +53,9 @@ class Core:
         self.cmd_status = cmd_status      # status answered to a command instead of executing it (script)
         self.final_status = final_status  # status of the final response of a data phase (script)
         self.sb_sink = b""
+        self.image_sink = b""             # raw data packets outside any command (load-image mode of some ROMs)
+        self.key_store = bytes((i * 11 + 7) & 0xFF for i in range(48))
+        self.user_keys: dict[int, bytes] = {}
         self.din: Optional[dict] = None   # running host->device data phase
         self.dout: Optional[dict] = None  # running device->host data phase
 
@@ -154,6 +158,27 @@ class Core:
             if st != SUCCESS:
                 return [("cmd", packet(RSP_READ_ONCE, 0, [st, 0]))]
             return [("cmd", packet(RSP_READ_ONCE, 0, [SUCCESS, cnt] + [self.once.get(idx + j, 0) for j in range(cnt // 4)]))]
+        if tag == CMD_KEY_PROV:
+            op = p[0] if p else -1
+            if op in (1, 5):  # set user key / write key store: host->device data phase
+                ln = p[2] if len(p) > 2 else 0
+                if not flags & 1:
+                    self.errors.append("data-phase command without the data-phase flag")
+                if st != SUCCESS or ln == 0:
+                    return [("cmd", self.generic(st or INVALID_ARGUMENT, tag))]
+                self.din = {"tag": tag, "addr": (op, p[1]), "len": ln, "buf": b""}
+                return [("cmd", self.generic(SUCCESS, tag))]
+            if op == 6:  # read key store: device->host data phase
+                if st != SUCCESS:
+                    return [("cmd", packet(RSP_KEY_PROV, 0, [st, 0]))]
+                out = [("cmd", packet(RSP_KEY_PROV, 1, [SUCCESS, len(self.key_store)]))]
+                for i in range(0, len(self.key_store), self.max_packet):
+                    out.append(("data", self.key_store[i:i + self.max_packet]))
+                out.append(("cmd", self.generic(self.final_status, tag)))
+                return out
+            if st == SUCCESS:
+                self.effects.append(("key_prov", op, tuple(p[1:])))
+            return [("cmd", self.generic(st, tag))]
         if tag in (CMD_EXECUTE, CMD_CALL, CMD_RESET):
             if st == SUCCESS:
                 self.effects.append(("control", tag, tuple(p)))
@@ -163,7 +188,10 @@ class Core:
     def data_in(self, chunk: bytes) -> list:
         """One host->device data packet. Returns items to send (the final response when complete)."""
         if self.din is None:
-            self.errors.append("data packet outside a data phase")
+            # no command is running: the ROM's load-image mode takes raw data packets
+            if len(chunk) > self.max_packet:
+                self.errors.append(f"data packet of {len(chunk)} bytes exceeds the negotiated size {self.max_packet}")
+            self.image_sink += chunk
             return []
         if len(chunk) > self.max_packet:
             self.errors.append(f"data packet of {len(chunk)} bytes exceeds the negotiated size {self.max_packet}")
@@ -177,7 +205,14 @@ class Core:
             self.din = None
             buf = d["buf"][: d["len"]]
             if self.final_status == SUCCESS:
-                if d["tag"] == CMD_WRITE_MEMORY:
+                if d["tag"] == CMD_KEY_PROV:
+                    if d["addr"][0] == 5:
+                        self.key_store = buf
+                        self.effects.append(("write_key_store", buf))
+                    else:
+                        self.user_keys[d["addr"][1]] = buf
+                        self.effects.append(("set_user_key", d["addr"][1], buf))
+                elif d["tag"] == CMD_WRITE_MEMORY:
                     self.mem[d["addr"]:d["addr"] + d["len"]] = buf
                     self.effects.append(("write", d["addr"], buf))
                 else:
